@@ -287,6 +287,36 @@ class Ref:
         return ''.join(out)
 
 
+def std_render(ref: 'Ref', j, rng=None, top=True) -> str:
+    """Reference standard-notation rendering with random decoration (input generation only):
+    infix or prefix for predicates of arity >= 2, outer parentheses kept or dropped, spaces."""
+    def sp():
+        if rng is None:
+            return ''
+        return ' ' * rng.choice([0, 0, 0, 1, 1, 2])
+    k = j[0]
+    if k == 'A':
+        return ref.coords('Atomic', j[1], j[2])
+    if k == 'P':
+        p = j[1]
+        sym = ref.sym('System', p) if isinstance(p, str) else ref.coords('Predicate', p[0], p[1])
+        ps = [ref.param(q) for q in j[2]]
+        infix = len(ps) >= 2 and (rng is None or rng.random() < 0.6)
+        if infix:
+            return ps[0] + sp() + sym + sp() + sp().join(ps[1:])
+        return sym + sp() + sp().join(ps)
+    if k == 'Q':
+        return ref.sym('Quantifier', j[1]) + sp() + ref.coords('Variable', j[2][0], j[2][1]) + sp() + std_render(ref, j[3], rng, False)
+    if k == 'U':
+        return ref.sym('Operator', j[1]) + sp() + std_render(ref, j[2], rng, False)
+    if k == 'B':
+        inner = std_render(ref, j[2], rng, False) + sp() + ref.sym('Operator', j[1]) + sp() + std_render(ref, j[3], rng, False)
+        if top and (rng is None or rng.random() < 0.5):
+            return inner
+        return ref.sym('paren_open', 0) + sp() + inner + sp() + ref.sym('paren_close', 0)
+    raise ValueError(k)
+
+
 class SentGen:
     """Random well-formed sentences of the parsers' language (closed, non-vacuous, no
     re-binding, arity-consistent), as JSON."""
